@@ -5071,16 +5071,17 @@ impl Zeroconf {
             self.retransmissions
                 .iter()
                 .map(|r| {
-                    let (kind, key): (&'static str, String) = match &r.command {
-                        Command::Browse(ty, _, _, _) => ("Browse", ty.clone()),
-                        Command::ResolveHostname(h, _, _, _) => ("ResolveHostname", h.clone()),
-                        Command::RegisterResend(n, idx) => ("RegisterResend", format!("{n}%{idx}")),
-                        Command::UnregisterResend(_, idx, v4) => ("UnregisterResend", format!("{idx}%{v4}")),
-                        Command::Resolve(i, _) => ("Resolve", i.clone()),
-                        Command::Verify(i, _) => ("Verify", i.clone()),
-                        _ => ("other", String::new()),
+                    // (kind, key, number: the delay in seconds a search re-run carries on, the try count of a follow-up)
+                    let (kind, key, n): (&'static str, String, u64) = match &r.command {
+                        Command::Browse(ty, delay, _, _) => ("Browse", ty.clone(), u64::from(*delay)),
+                        Command::ResolveHostname(h, delay, _, _) => ("ResolveHostname", h.clone(), u64::from(*delay)),
+                        Command::RegisterResend(n, idx) => ("RegisterResend", format!("{n}%{idx}"), 0),
+                        Command::UnregisterResend(_, idx, v4) => ("UnregisterResend", format!("{idx}%{v4}"), 0),
+                        Command::Resolve(i, tries) => ("Resolve", i.clone(), u64::from(*tries)),
+                        Command::Verify(i, _) => ("Verify", i.clone(), 0),
+                        _ => ("other", String::new(), 0),
                     };
-                    (r.next_time, kind, key)
+                    (r.next_time, kind, key, n)
                 })
                 .collect(),
         );
